@@ -253,8 +253,8 @@ const preludeSMT = `
 (declare-fun timeAfter (Time Time) Bool)
 (declare-fun emptyStr () Str)
 (define-fun nilSlice () Slice (mk_slice 0 0 0 0))
-(declare-fun sidx (Slice Int) Int)
-(assert (forall ((s Slice) (i Int)) (! (= (sidx s i) (+ (s_off s) i)) :pattern ((sidx s i)))))
+(declare-fun sidx (Int Int) Int)
+(assert (forall ((o Int) (i Int)) (! (= (sidx o i) (+ o i)) :pattern ((sidx o i)))))
 (define-fun nilIface () Iface (mk_iface 0 0))
 (define-fun tdiv ((a Int) (b Int)) Int (ite (>= a 0) (ite (> b 0) (div a b) (- (div a (- b)))) (ite (> b 0) (- (div (- a) b)) (div (- a) (- b)))))
 (define-fun tmod ((a Int) (b Int)) Int (- a (* b (tdiv a b))))
